@@ -16,10 +16,10 @@ go build ./... || { echo "CONFIRM: build failed"; exit 1; }
 go vet ./ ./segment ./fs ./verifier ./migrate ./metadb ./types ./metrics >/dev/null 2>&1 || { echo "CONFIRM: vet failed"; exit 1; }
 suite() { go test -count=1 ./... 2>&1 | grep -v '^ok\|no test files' ; }
 OUT=$(suite)
-if echo "$OUT" | grep -q FAIL; then
-  # known flake: segment.TestFrameCodecFuzz
-  OUT=$(suite)
-fi
+# known flakes: segment.TestFrameCodecFuzz (~10%), timing-based verifier tests under heavy machine load
+for i in 1 2 3; do
+  if echo "$OUT" | grep -q FAIL; then OUT=$(suite); fi
+done
 if echo "$OUT" | grep -q FAIL; then echo "CONFIRM: suite FAILS with the change:"; echo "$OUT" | head -20; exit 1; fi
 echo "CONFIRM: suite passes with the change"
 cp "$DEMO" $W/$PKG/zz_seed_demo_test.go
